@@ -185,25 +185,34 @@ def grid(tier):
     hosts = [3, 5, 8, 13] if tier == "quick" else [3, 4, 5, 7, 8, 9, 13, 18, 41, 45]
     base = []
     for nh in hosts:
-        for (ns, no, npc) in ([(1, 1, 1), (2, 2, 2), (3, 2, 2)] if tier == "quick" else
-                              [(1, 1, 1), (2, 1, 2), (2, 2, 2), (3, 2, 2), (3, 3, 3), (5, 3, 2)]):
+        # (1, 2, 1): one service / one process but several OSs - the corner where a host's vulnerability hinges on its OS
+        for (ns, no, npc) in ([(1, 1, 1), (2, 2, 2), (3, 2, 2), (1, 2, 1)] if tier == "quick" else
+                              [(1, 1, 1), (2, 1, 2), (2, 2, 2), (3, 2, 2), (3, 3, 3), (5, 3, 2), (1, 2, 1), (1, 3, 1), (2, 3, 1)]):
             base.append(dict(num_hosts=nh, num_services=ns, num_os=no, num_processes=npc))
     variants = [dict(), dict(uniform=True), dict(restrictiveness=1), dict(restrictiveness=2, random_goal=True),
                 dict(exploit_probs="mixed", r_sensitive=7, r_user=3), dict(exploit_probs=None, privesc_probs=None),
                 dict(exploit_probs=0.5, privesc_probs=0.25, exploit_cost=2.5, privesc_cost=3, base_host_value=0,
                      host_discovery_value=2, step_limit=50),
-                dict(alpha_H=0.5, alpha_V=2.5, lambda_V=2.0), dict(num_exploits=1, num_privescs=1)]
+                dict(alpha_H=0.5, alpha_V=2.5, lambda_V=2.0), dict(num_exploits=1, num_privescs=1),
+                # almost every (service, os) exploit name is used: the name-collision retry loop runs long
+                dict(num_exploits="dense")]
     if tier != "quick":
         variants += [dict(address_space_bounds=(30, 9)), dict(restrictiveness=3, uniform=True, random_goal=True),
                      dict(service_scan_cost=0, os_scan_cost=2, subnet_scan_cost=3, process_scan_cost=4)]
     for b in base:
         for v in variants:
             p = dict(b, **v)
+            if p.get("num_exploits") == "dense":
+                p["num_exploits"] = max(1, p["num_services"] * (p["num_os"] + 1) - 1)
             if "address_space_bounds" in p and (p["num_hosts"] > 40):
                 continue
             if in_known_hang_class(p) is None:
                 out.append(p)
     return out
+
+
+def is_dense(p):
+    return p.get("num_exploits") == max(1, p["num_services"] * (p.get("num_os", 2) + 1) - 1) and p.get("num_exploits", 0) >= 5
 
 
 def _worker(args):
